@@ -61,7 +61,7 @@ type Config struct {
 }
 
 func checkConfig(cfg Config) error {
-	if cfg.ModifyResponseProbability <= 0 || cfg.ModifyResponseProbability > 1 {
+	if !(cfg.ModifyResponseProbability > 0 && cfg.ModifyResponseProbability <= 1) {
 		return ErrInvalidModifyResponseProbability
 	}
 
